@@ -178,13 +178,16 @@ class TcpConnection(object):
         if descr != self.__fileno:
             poller.unsubscribe(descr)
             return
+        # A callback below may disconnect and immediately reconnect (new socket, state CONNECTING again),
+        # so "was this socket dropped" cannot be read off the state; compare the socket instead.
+        sock = self.__socket
 
         if eventType & POLL_EVENT_TYPE.ERROR:
             self.disconnect()
             return
 
         self.__processConnectionTimeout()
-        if self.state == CONNECTION_STATE.DISCONNECTED:
+        if self.__socket is not sock:
             return
 
         if eventType & POLL_EVENT_TYPE.READ or eventType & POLL_EVENT_TYPE.WRITE:
@@ -193,17 +196,15 @@ class TcpConnection(object):
                 return
 
             if self.__state == CONNECTION_STATE.CONNECTING:
-                if self.__onConnected is not None:
-                    self.__onConnected()
-                if self.__state == CONNECTION_STATE.DISCONNECTED:
-                    return
                 self.__state = CONNECTION_STATE.CONNECTED
                 self.__lastReadTime = monotonicTime()
+                if self.__onConnected is not None:
+                    self.__onConnected()
                 return
 
         if eventType & POLL_EVENT_TYPE.WRITE:
             self.__trySendBuffer()
-            if self.__state == CONNECTION_STATE.DISCONNECTED:
+            if self.__socket is not sock:
                 return
             event = POLL_EVENT_TYPE.READ | POLL_EVENT_TYPE.ERROR
             if len(self.__writeBuffer) > 0:
@@ -212,7 +213,7 @@ class TcpConnection(object):
 
         if eventType & POLL_EVENT_TYPE.READ:
             self.__tryReadBuffer()
-            if self.__state == CONNECTION_STATE.DISCONNECTED:
+            if self.__socket is not sock:
                 return
 
             while True:
@@ -221,7 +222,7 @@ class TcpConnection(object):
                     break
                 if self.__onMessageReceived is not None:
                     self.__onMessageReceived(message)
-                if self.__state == CONNECTION_STATE.DISCONNECTED:
+                if self.__socket is not sock:
                     return
 
     def __processConnectionTimeout(self):
